@@ -830,7 +830,9 @@ int main(int argc, char **argv) {
     continue;
   }
 
-  if (ld_args.len > 0)
+  // -c, -S and -E stop before the link step; objects and libraries
+  // given on the command line are then not used.
+  if (ld_args.len > 0 && !opt_c && !opt_S && !opt_E)
     run_linker(&ld_args, opt_o ? opt_o : "a.out");
   return 0;
 }
